@@ -69,10 +69,10 @@ mutual
     | seq (elem : Ty)
     | arr (elem : Ty) (n : Nat)
     | struct (ext : Ext) (ms : Ms)
-    /-- FINAL union: discriminator kind, branches. A value is `.struct [.num disc, .num branchId, value]`, or
-        `.struct [.num disc]` when the discriminator selects no branch. (Appendable and mutable unions are not
-        modelled: the driver answers `unmodelled`, see notes/xcdr.md Follow-up 2.) -/
-    | union (disc : Prim) (bs : Bs)
+    /-- FINAL (`app = false`) or APPENDABLE (`app = true`) union: discriminator kind, branches. A value is
+        `.struct [.num disc, .num branchId, value]`, or `.struct [.num disc]` when the discriminator selects no branch.
+        (Mutable unions are not modelled: the driver answers `unmodelled`, see notes/xcdr.md Follow-up 2 / 4.) -/
+    | union (app : Bool) (disc : Prim) (bs : Bs)
   /-- member list: id, optional, must-understand, type -/
   inductive Ms
     | nil
@@ -147,6 +147,7 @@ def Ty.isPrim : Ty → Bool
 /-- `is_next_member_having_dheader` of `EMheader1::write_header` (serializer.rs:590): appendable or mutable
     structure, or *any* sequence (also a primitive one, which has no DHEADER) -/
 def Ty.lc5 : Ty → Bool
+  | .union true _ _ => true
   | .struct .appendable _ => true
   | .struct .mutable _ => true
   | .seq _ => true
@@ -200,9 +201,14 @@ def zeros (n : Nat) : Bytes := List.replicate n 0
     `div_ceil`) and `Reader::seek_padding` (deserializer.rs:1314, mask form; equal for powers of two) -/
 def padTo (a pos : Nat) : Nat := (pos + (a - 1)) / a * a - pos
 
-/-- `impl AsBytes for char` (serializer.rs:1166): `to_string().as_bytes()`, i.e. UTF-8 of U+0000..U+00FF -/
-def c8Bytes (n : Nat) : Bytes :=
+/-- before the repair of D63: `impl AsBytes for char` wrote `to_string().as_bytes()`, the UTF-8 form of U+0000..U+00FF
+    (two bytes from 128 on); kept as regression witness (`C09_char8_old_counterexample`) -/
+def c8BytesOld (n : Nat) : Bytes :=
   if n < 128 then [UInt8.ofNat n] else [UInt8.ofNat (192 + n / 64 % 4), UInt8.ofNat (128 + n % 64)]
+
+/-- `serialize_char8_type` (D63 repaired): CHAR8 is the single byte with the ISO 8859-1 code of the character
+    (a `char` above U+00FF is `Err(InvalidData)`; such a value cannot be stored through the harness) -/
+def c8Bytes (n : Nat) : Bytes := [UInt8.ofNat n]
 
 /-! ## Serializer (serializer.rs) -/
 abbrev W := Bytes × Nat
@@ -245,6 +251,17 @@ def wWStr (ver : Ver) (e : Endian) (us : List Val) (pos : Nat) : W :=
   let b := wList (fun v p => wPrim ver e .u16 v.unit p) us h.2
   let t := wPrim ver e .u16 0 b.2
   (h.1 ++ b.1 ++ t.1, t.2)
+
+/-- rule (26) `serialize_funion_type` (serializer.rs:509): discriminator, then the member at index 1 of the data;
+    `g id v` serializes the value `v` of the member `id` -/
+def wUnion (ver : Ver) (e : Endian) (disc : Prim) (g : Nat → Val → Nat → W) (fs : List Val) (pos : Nat) : W :=
+  match fs with
+  | [.num d, .num id, v] =>
+    let a := wPrim ver e disc d pos
+    let b := g id v a.2
+    (a.1 ++ b.1, b.2)
+  | [.num d] => wPrim ver e disc d pos
+  | _ => ([], pos)
 
 /-- `{ O.length : UInt32 } { O[i] : O.element_type }*` (serializer.rs:463, 767, 949); `f` serializes one element -/
 def wSeqBody (ver : Ver) (e : Endian) (f : Val → Nat → W) (vs : List Val) (pos : Nat) : W :=
@@ -369,14 +386,11 @@ mutual
       let cs := sortChunks (chunks cfg ver e ms fs)
       if ver == .v1 then emit1 cfg e cs pos else wDh ver e (emit2 e cs) pos
     -- rule (26) `serialize_funion_type` (serializer.rs:509): discriminator, then the member at index 1 of the data
-    | .union disc bs, .struct fs, pos =>
-      match fs with
-      | [.num d, .num id, v] =>
-        let a := wPrim ver e disc d pos
-        let b := serB cfg ver e bs id v a.2
-        (a.1 ++ b.1, b.2)
-      | [.num d] => wPrim ver e disc d pos
-      | _ => ([], pos)
+    -- rule (26) final union; appendable union = rules (29) / (30) over it (`serialize_t_as_nested`, also for the
+    -- elements of a collection since D78 is repaired)
+    | .union app disc bs, .struct fs, pos =>
+      if app && ver == .v2 then wDh ver e (wUnion ver e disc (serB cfg ver e bs) fs) pos
+      else wUnion ver e disc (serB cfg ver e bs) fs pos
     | _, _, pos => ([], pos)
   /-- the selected member of a union value: serialized with the type of the first branch that has its member id -/
   def serB (cfg : Cfg) (ver : Ver) (e : Endian) : Bs → Nat → Val → Nat → W
@@ -437,7 +451,7 @@ mutual
     | .seq el, .list vs => vs.all (shapeOk el)
     | .arr el n, .list vs => vs.length == n && vs.all (shapeOk el)
     | .struct x ms, .struct fs => shapeOkMs (x == .mutable) ms fs
-    | .union disc bs, .struct fs =>
+    | .union _ disc bs, .struct fs =>
       match fs with
       | [.num d, .num id, v] => d < 2 ^ (8 * disc.size) && (disc != .bool || d ≤ 1) && shapeOkB bs id v
       | [.num d] => d < 2 ^ (8 * disc.size) && (disc != .bool || d ≤ 1)
@@ -461,7 +475,7 @@ mutual
     | .seq el, .list vs => vs.any (serPanics1 el)
     | .arr el _, .list vs => vs.any (serPanics1 el)
     | .struct x ms, .struct fs => serPanics1Ms (x == .mutable) ms fs
-    | .union _ bs, .struct fs =>
+    | .union _ _ bs, .struct fs =>
       match fs with
       | [.num _, .num id, v] => serPanics1B bs id v
       | _ => false
@@ -652,7 +666,7 @@ def dElems (cfg : Cfg) (ver : Ver) (e : Endian) (el : Ty) (f : St → Res Val) (
   | .enum _ _ _ => dVec cfg 48 f len s
   | .wstr => dVec cfg 24 f len s
   | .struct _ _ => dVec cfg 48 f len s
-  | .union _ _ => dVec cfg 48 f len s
+  | .union _ _ _ => dVec cfg 48 f len s
   | .seq _ => .panic .unsupported
   | .arr _ _ => .panic .unsupported
 
@@ -757,6 +771,17 @@ def dFMember (cfg : Cfg) (ver : Ver) (e : Endian) (id : Nat) (opt : Bool) (g : S
         if flag == 1 then g s1 else .ok .absent s1
   else g s
 
+/-- `deserialize_funion_type` (deserializer.rs:1197): the discriminator (one of the six kinds of
+    `get_discriminator_id_as_i32`, else `InvalidType`), then the branch it selects (`g d i` decodes branch `i`);
+    D80 repaired: when it selects none, no member is active (was `Err(InvalidData)`) -/
+def dUnion (ver : Ver) (e : Endian) (disc : Prim) (bs : Bs) (g : Nat → Nat → St → Res Val) (s : St) : Res Val :=
+  (dPrim ver e disc s).bind fun d s1 =>
+    if !discOk disc then .err .invalidType s1
+    else
+      match bs.selIdx (discI32 disc d) with
+      | some i => g d i s1
+      | none => .ok (.struct [.num d]) s1
+
 def absents (n : Nat) : List Val := List.replicate n .absent
 
 mutual
@@ -774,14 +799,11 @@ mutual
       -- rules (8) (10) (9): deserializer.rs:1054, 224, 420
       if el.isPrim || ver == .v1 then dElems cfg ver e el (de cfg ver e el) n s
       else (dPrim ver e .u32 s).bind fun _ s0 => dElems cfg ver e el (de cfg ver e el) n s0
-    -- rule (26) `deserialize_funion_type` (deserializer.rs:1197)
-    | .union disc bs, s =>
-      (dPrim ver e disc s).bind fun d s1 =>
-        if !discOk disc then .err .invalidType s1
-        else
-          match bs.selIdx (discI32 disc d) with
-          | some i => deAt cfg ver e d bs i s1
-          | none => .err .invalidData s1
+    -- rule (26) `deserialize_funion_type`; an appendable union goes through `deserialize_appendable_type` of the
+    -- version (D77 repaired: XCDR1 as final, XCDR2 `deserialize_delimited`)
+    | .union app disc bs, s =>
+      if app && ver == .v2 then dDelimited ver e (dUnion ver e disc bs (fun d i s1 => deAt cfg ver e d bs i s1)) s
+      else dUnion ver e disc bs (fun d i s1 => deAt cfg ver e d bs i s1) s
     | .struct .final ms, s => (deF cfg ver e false ms s).map .struct
     | .struct .appendable ms, s =>
       -- rules (29) (30): deserializer.rs:363, 560
